@@ -715,7 +715,6 @@ package quickfix
 //@   atcall SetField @rtrl inReplyTo != nil ==> fmvals(inReplyTo.Trailer.FieldMap)
 //@   atcall SetField @sep inReplyTo != nil ==> msgsep(logon, inReplyTo)
 //@   atcall SetField @new fresh(logon) && fresh(logon.Header.tagLookup) && fresh(logon.Body.tagLookup) && fresh(logon.Trailer.tagLookup)
-//@   atcall SetField @type fhas(logon.Header.FieldMap, 35) ==> valid(logon.Header.tagLookup[35]) && valid(fval(logon.Header.FieldMap, 35)) && onebyte(fval(logon.Header.FieldMap, 35), 65)
 //@   ensures @sess sessfull(s) && s.State == old(s.State) && s.messageOut == old(s.messageOut)
 //@   ensures @rmaps inReplyTo != nil ==> mapsok(inReplyTo)
 //@   ensures @rhdr inReplyTo != nil ==> fmvals(inReplyTo.Header.FieldMap)
